@@ -23,7 +23,16 @@ package logger
 //@ func (*Logger).Warnf
 //@   trusted
 //@   modifies bytes.*
+// A prompt is answered "yes" in two ways only: --yes was given (AssumeYes), or what was typed is one of the accepted
+// answers. Nothing else - a dry run, a missing terminal, an empty line - counts as consent (the trust prompt of a
+// remote Taskfile and the prompts of a task both go through here).
+//@ ghost var answerOK bool scratch
+//@ nonnil ErrNoTerminal, ErrPromptCancelled
 //@ func (*Logger).Prompt
-//@   trusted
+//@   trusted frame
 //@   blocks
 //@   modifies bytes.*, bufio.*
+//@   init answerOK := false
+//@   site slices.Contains#1 requires arg0 == continueValues                                                    [C20,C13]
+//@   site slices.Contains#1 ghost answerOK := result
+//@   ensures result == nil ==> l.AssumeYes || answerOK                                                         [C20,C13]
